@@ -65,6 +65,8 @@ _QUICK_FLOORS = {
     "eval:make_grid_as_intended": 1000, "class:make_call_positional_dims_custom_dims": 80,
     "class:make_call_positional_dims_and_extra_coords_names_custom_dims": 150, "class:make_call_positional_with_extra_coordinates": 200,
     "class:make_call_positional_without_extra_coordinates": 150, "class:make_call_all_keywords": 140,
+    # calls that rely on the documented defaults of make_xarray_grid
+    "defaulted_argument:make_xarray_grid.dims": 300, "defaulted_argument:make_xarray_grid.extra_coords_names": 400,
     # lazily evaluated grids, gradually drifting non-meshgrids
     "class:table_dask_arrays": 200, "class:table_dask_two_or_more_chunks_along_second_dimension": 170,
     "class:table_dask_and_in_memory_members_mixed": 25, "class:check_meshgrid_drifting_non_meshgrid": 60,
@@ -615,7 +617,8 @@ def install(tap, run):
     tap.function(vu, "check_meshgrid", post=post_check)
     tap.function(vu, "meshgrid_to_1d", post=post_to1d)
     tap.function(vu, "meshgrid_from_1d", post=post_from1d)
-    tap.function(vu, "make_xarray_grid", post=post_make)
+    # arguments the caller leaves out are judged by their DOCUMENTED defaults (the other four functions have no optional arguments)
+    tap.function(vu, "make_xarray_grid", post=post_make, documented={"dims": ("northing", "easting"), "extra_coords_names": None})
     tap.function(vu, "grid_to_table", post=post_table)
 
 
